@@ -12,6 +12,8 @@
        class 6 reg    RLParameter objects of registry.hp_config        (owner 0)
        class 7 book   scores / fitness / steps lists                   (owner 0)
        class 8 ext    other tensor attributes (sigma_inv, theta_0 ...) (owner 0)
+       class 9 buf    registered buffers of a network: in state_dict but not in parameters()
+                      (noisy-layer epsilon tensors)
    [a_blocks] is an association list key -> cells in the canonical slot order that harness/evo.py
    uses as well; [agent_locs] = all owned locations.  Optimizers additionally hold *references*
    [o_refs] to parameter cells (not owned by the optimizer).  Names (network / optimizer /
@@ -44,6 +46,7 @@ Definition key_eqb (a b : key) : bool := N.eqb (fst a) (fst b) && N.eqb (snd a) 
 
 Definition cEnc := 0. Definition cHead := 1. Definition cHenc := 2. Definition cConst := 3.
 Definition cCfg := 4. Definition cOst := 5. Definition cReg := 6. Definition cBook := 7. Definition cExt := 8.
+Definition cBuf := 9.
 Definition kReg : key := (0, cReg). Definition kBook : key := (0, cBook). Definition kExt : key := (0, cExt).
 
 Record group := mkGroup { g_eval : name; g_shared : list name; g_policy : bool }.
@@ -131,8 +134,9 @@ Definition run_hook (h : hook) (x : lstate) : lstate :=
   | HSync e t =>
       let a := snd x in
       if Nat.eqb (length (blk a (t, cEnc))) (length (blk a (e, cEnc))) &&
-         Nat.eqb (length (blk a (t, cHead))) (length (blk a (e, cHead)))
-      then seqL [wcopy (t, cEnc) (e, cEnc); wcopy (t, cHead) (e, cHead)] x else x
+         Nat.eqb (length (blk a (t, cHead))) (length (blk a (e, cHead))) &&
+         Nat.eqb (length (blk a (t, cBuf))) (length (blk a (e, cBuf)))
+      then seqL [wcopy (t, cEnc) (e, cEnc); wcopy (t, cHead) (e, cHead); wcopy (t, cBuf) (e, cBuf)] x else x
   | HShare p others =>
       (* every other network gets a detached copy of the policy's encoder; its own encoder
          parameters disappear from parameters()/state_dict() *)
@@ -150,7 +154,7 @@ Definition learn_opt (ok : name * nat) (x : lstate) : lstate :=
   let k := (fst ok, cOst) in
   if Nat.eqb (length (blk (snd x) k)) (snd ok) then wfresh k x else realloc k (repeat FreshV (snd ok)) x.
 Definition learn_agent (st : list (name * nat)) (x : lstate) : lstate :=
-  seqL (flat_map (fun n => [wfresh (n, cEnc); wfresh (n, cHead)]) (net_names (snd x))
+  seqL (flat_map (fun n => [wfresh (n, cEnc); wfresh (n, cHead); wfresh (n, cBuf)]) (net_names (snd x))
         ++ [wfresh kExt] ++ map learn_opt st) x.
 
 (* the training loop appends a score / fitness and bumps steps[-1] *)
@@ -161,7 +165,7 @@ Definition act_agent : lstate -> lstate := wfresh kExt.
 
 (* ---- mutations (agilerl/hpo/mutation.py) ----------------------------------------------------- *)
 Record netshape := mkShape { ns_name : name; ns_arch : N; ns_enc : nat; ns_head : nat; ns_henc : nat;
-                             ns_const : nat; ns_cfg : nat }.
+                             ns_const : nat; ns_cfg : nat; ns_buf : nat }.
 Inductive mkind := MNone | MArch | MParam | MAct | MHp (h : name) (v : Q).
 
 (* an evaluation network replaced by its mutated offspring: all tensors are new objects *)
@@ -169,7 +173,7 @@ Definition rebuild_eval (sh : netshape) : lstate -> lstate :=
   let n := ns_name sh in
   seqL [ realloc (n, cEnc) (repeat FreshV (ns_enc sh)); realloc (n, cHead) (repeat FreshV (ns_head sh));
          realloc (n, cHenc) (repeat FreshV (ns_henc sh)); realloc (n, cConst) (repeat FreshV (ns_const sh));
-         realloc (n, cCfg) (repeat FreshV (ns_cfg sh));
+         realloc (n, cCfg) (repeat FreshV (ns_cfg sh)); realloc (n, cBuf) (repeat FreshV (ns_buf sh));
          pure (fun a => with_arch a (setN n (ns_arch sh) (a_arch a))) ].
 
 (* Mutations.reinit_from_mutated: shared network rebuilt from the eval network's init_dict, then
@@ -182,6 +186,7 @@ Definition rebuild_shared_one (e s : name) (x : lstate) : lstate :=
          realloc (s, cHenc) [];
          realloc (s, cConst) (map CopyOf (blk a (e, cConst)));
          realloc (s, cCfg) (map CopyOf (blk a (e, cCfg)));
+         realloc (s, cBuf) (map CopyOf (blk a (e, cBuf)));
          pure (fun a' => with_arch a' (setN s (lookupN 0 e (a_arch a')) (a_arch a'))) ] x.
 Definition rebuild_shared (x : lstate) : lstate :=
   seqL (flat_map (fun g => map (fun s y => rebuild_shared_one (g_eval g) s y) (g_shared g))
@@ -197,7 +202,7 @@ Definition mutate_kind (k : mkind) (sh : list netshape) (x : lstate) : lstate :=
   | MAct => if r_act_skip (a_reg (snd x)) then x
             else seqL (map rebuild_eval sh ++ [reinit_opts (fun _ => true)]) x
   | MParam => let p := policy_name (a_reg (snd x)) in
-              seqL [wfresh (p, cEnc); wfresh (p, cHead); reinit_opts (fun _ => true)] x
+              seqL [wfresh (p, cEnc); wfresh (p, cHead); wfresh (p, cBuf); reinit_opts (fun _ => true)] x
   | MHp h v => seqL [ pure (fun a => with_hps a (setN h v (a_hps a))); wfresh kReg;
                       reinit_opts (fun c => N.eqb (oc_lr c) h) ] x
   end.
